@@ -317,7 +317,13 @@ static void run_case(const Case& c) {
         if (c.p[5] & 8) for (auto& p : b) co.AddPath(p, (JoinType)c.p[6], (EndType)c.p[7]);      // one group per path
         else if (!b.empty()) co.AddPaths(b, (JoinType)c.p[6], (EndType)c.p[7]);
         if (c.op == OP_OFFSET_PATHS) { co.Execute(c.f[0], sol); consume(sol); if (c.p[5] & 4) { co.Execute(-c.f[0], sol); consume(sol); } }
-        else if (c.op == OP_OFFSET_TREE) { co.Execute(c.f[0], tree); consume_tree(tree); }
+        else if (c.op == OP_OFFSET_TREE) {
+          if (c.p[5] & 4) {      // tree overload first, into a tree that no longer exists when the paths overload runs on the same object
+            PolyTree64* t = new PolyTree64(); co.Execute(c.f[0], *t); consume_tree(*t); delete t;
+            co.Execute(c.f[0], sol); consume(sol);
+          }
+          co.Execute(c.f[0], tree); consume_tree(tree);
+        }
         else {
           double base = c.f[0]; bool vary = c.p[4] != 0;      // p[4] = 0: the callback returns the same delta everywhere
           co.Execute([base, vary](const Path64& path, const PathD& norms, size_t curr, size_t prev) { double v = delta_cb_value(base, path, norms, curr, prev); return vary ? v : base; }, sol);
